@@ -25,7 +25,7 @@ namespace TlxVerif.C11.BarM
 open TlxVerif.Sched (StepOut)
 
 inductive Pc
-  | none | start | finished
+  | start | finished
   | mSpawn (i : Nat) | mJoin (i : Nat)
   | lock                     -- unique_lock lock(mutex_)
   | cvwait (cur : Nat)       -- cv_.wait(lock), local `current = cur`
@@ -48,24 +48,27 @@ structure State where
   step : Nat := 0
   owner : Option Nat := none
   ws : List Nat := []
+  spawned : Nat := 0
   thr : List Thread
   actions : Nat := 0
   deriving Repr
 
 def init (n gens : Nat) : State :=
-  { n := n, gens := gens, thr := { pc := .start } :: List.replicate n { pc := .none } }
+  { n := n, gens := gens, thr := { pc := .start } :: List.replicate n { pc := .start } }
 
 def count (s : State) (i : Nat) : Nat := if i = 0 then s.c0 else s.c1
 def setCount (s : State) (i v : Nat) : State := if i = 0 then { s with c0 := v } else { s with c1 := v }
 
-def pcOf (s : State) (t : Nat) : Pc := (s.thr[t]?.map (·.pc)).getD .none
-def setPc (s : State) (t : Nat) (pc : Pc) : State :=
-  { s with thr := s.thr.modify t fun th => { th with pc := pc } }
+def pcOf (s : State) (t : Nat) : Pc := (s.thr[t]?.map (·.pc)).getD .finished
+/-- update the record of thread `t` -/
+def upd (s : State) (t : Nat) (f : Thread → Thread) : State := { s with thr := s.thr.modify t f }
+def setPc (s : State) (t : Nat) (pc : Pc) : State := upd s t fun th => { th with pc := pc }
 def ev (t : Nat) (e : String) : String := s!"{t}:{e}"
 
 def enabled (s : State) (t : Nat) : Bool :=
   match pcOf s t with
-  | .none | .finished => false
+  | .finished => false
+  | .start => t ≤ s.spawned
   | .lock => s.owner.isNone
   | .waiting _ => s.owner.isNone && !s.ws.contains t
   | .mJoin i => pcOf s (i + 1) == .finished
@@ -77,7 +80,7 @@ def spurCand (s : State) (t : Nat) : Bool :=
   | _ => false
 
 def unfinished (s : State) (t : Nat) : Bool :=
-  t < s.thr.length && pcOf s t != .none && pcOf s t != .finished
+  t < s.thr.length && t ≤ s.spawned && pcOf s t != .finished
 
 def out (s : State) (evs : List String) : Option (StepOut State) := some { st := s, evs := evs }
 
@@ -86,13 +89,13 @@ def step (s : State) (t : Nat) (_c : Nat) : Option (StepOut State) :=
   | none => none
   | some th =>
   match th.pc with
-  | .none | .finished => none
+  | .finished => none
   | .start =>
-    if t = 0 then out (setPc s t (.mSpawn 0)) [ev t "start"]
+    if t > s.spawned then none
+    else if t = 0 then out (setPc s t (.mSpawn 0)) [ev t "start"]
     else out (setPc s t (if s.gens = 0 then .finished else .lock)) [ev t "start"]
   | .mSpawn i =>
-    let s1 := setPc s (i + 1) .start
-    out (setPc s1 t (if i + 1 < s.n then .mSpawn (i + 1) else .mJoin 0)) [ev t s!"spawn({i + 1})"]
+    out (setPc { s with spawned := i + 1 } t (if i + 1 < s.n then .mSpawn (i + 1) else .mJoin 0)) [ev t s!"spawn({i + 1})"]
   | .mJoin i =>
     if pcOf s (i + 1) == .finished then
       if i + 1 < s.n then out (setPc s t (.mJoin (i + 1))) [ev t s!"join({i + 1})"]
@@ -100,28 +103,31 @@ def step (s : State) (t : Nat) (_c : Nat) : Option (StepOut State) :=
     else none
   | .lock =>
     if s.owner.isNone then
-      let cur := s.step
-      let s1 := setCount { s with owner := some t } cur (count s cur + 1)
-      let s1 := { s1 with thr := s1.thr.modify t fun th => { th with arrived := th.arrived + 1 } }
-      if count s1 cur < s.n then out (setPc s1 t (.cvwait cur)) [ev t "lock(m)"]
+      let cur := s.step                    -- size_t current = step_;
+      let cnt := count s cur + 1           -- counts_[current]++;
+      if cnt < s.n then
+        out (upd (setCount { s with owner := some t } cur cnt) t
+              fun th => { th with pc := .cvwait cur, arrived := th.arrived + 1 }) [ev t "lock(m)"]
       else
+        -- last thread has reached the barrier: step_ = step_ ? 0 : 1; counts_[step_] = 0; lambda();
         let st' := if s.step = 0 then 1 else 0
-        let s2 := setCount { s1 with step := st' } st' 0
-        out (setPc { s2 with actions := s.actions + 1 } t .notify) [ev t "lock(m)", ev t s!"act{s.actions}"]
+        let s1 := setCount (setCount { s with owner := some t, step := st', actions := s.actions + 1 } cur cnt) st' 0
+        out (upd s1 t fun th => { th with pc := .notify, arrived := th.arrived + 1 })
+            [ev t "lock(m)", ev t s!"act{s.actions}"]
     else none
   | .cvwait cur => out (setPc { s with owner := none, ws := s.ws ++ [t] } t (.waiting cur)) [ev t "wait(cv)"]
   | .waiting cur =>
     if s.owner.isNone then
       let sp := s.ws.contains t
       let s1 := { s with owner := some t, ws := s.ws.erase t }
-      some { st := setPc s1 t (if count s1 cur < s.n then .cvwait cur else .unlock),
+      some { st := setPc s1 t (if count s cur < s.n then .cvwait cur else .unlock),
              evs := [ev t (if sp then "wake!(cv)" else "wake(cv)")], spurious := sp }
     else none
   | .notify => out (setPc { s with ws := [] } t .unlock) [ev t s!"nall(cv)#{s.ws.length}"]
   | .unlock =>
     let nxt : Pc := if th.left + 1 < s.gens then .lock else .finished
-    let s1 := { s with owner := none, thr := s.thr.modify t fun th => { th with left := th.left + 1, pc := nxt } }
-    out s1 [ev t "unlock(m)", ev t s!"left{th.left}"]
+    out (upd { s with owner := none } t fun th => { th with left := th.left + 1, pc := nxt })
+        [ev t "unlock(m)", ev t s!"left{th.left}"]
 
 def lts : TlxVerif.Sched.LTS State where
   nthreads := fun s => s.thr.length
